@@ -16,6 +16,8 @@ SepKinds == {"SeparableConv1D", "SeparableConv2D"}
 PoolKinds == {"AveragePooling2D", "GlobalAveragePooling2D"}
 OldKinds == WeightKinds \cup {"Activation", "ReLU", "LeakyReLU", "BatchNormalization"}
 NewKinds == {"Conv1D"} \cup RnnKinds \cup SepKinds \cup PoolKinds
+\* a user-defined layer class (handed over in custom_objects): it has no quantized counterpart and no entry selects it
+UserKinds == {"User"}
 QNameX(kind) == IF kind \in NewKinds THEN "Q" \o kind ELSE QName(kind)
 LookupX(dict, layer) == IF dict[layer.name] # "absent" THEN dict[layer.name] ELSE dict[QNameX(layer.kind)]
 Lift(r) == [cls |-> r.cls, kq |-> r.kq, bq |-> r.bq, rq |-> "none", sq |-> "none", pq |-> "none", act |-> r.act]
@@ -24,6 +26,7 @@ KernelX(e) == IF e \in {"A", "R", "SP"} THEN "qA" ELSE IF e = "B" THEN "qB" ELSE
 BiasX(e) == IF e \in {"A", "R", "SP"} THEN "bA" ELSE "none"
 
 DesignLayerX(dict, layer) ==
+  IF layer.kind \in UserKinds THEN KeepX(layer) ELSE
   LET e == LookupX(dict, layer) IN
   IF layer.kind \in OldKinds THEN Lift(DesignLayer(dict, layer))
   ELSE IF layer.kind = "Conv1D" THEN
@@ -46,13 +49,16 @@ DesignLayerX(dict, layer) ==
 DesignQuantizeX(dict, model) == [k \in 1..Len(model) |-> DesignLayerX(dict, model[k])]
 
 \* ---- properties (C12) on the extended description
-SelectedX(dict, layer) == dict[layer.name] # "absent" \/ dict[QNameX(layer.kind)] # "absent"
+SelectedX(dict, layer) == layer.kind \notin UserKinds /\ (dict[layer.name] # "absent" \/ dict[QNameX(layer.kind)] # "absent")
 PropUnselectedUnchangedX(dict, model, res) == \A k \in 1..Len(model) : ~SelectedX(dict, model[k]) => res[k] = KeepX(model[k])
 PropBiaslessX(model, res) == \A k \in 1..Len(model) : ~model[k].bias => res[k].bq = "none"
 PropNameBeatsClassX(dict, model, res) ==
   \A k \in 1..Len(model) :
-     (dict[model[k].name] # "absent") => res[k] = DesignLayerX([dict EXCEPT ![QNameX(model[k].kind)] = "absent"], model[k])
-PropCounterpartX(model, res) == \A k \in 1..Len(model) : res[k].cls \in {model[k].kind, QNameX(model[k].kind)}
+     (model[k].kind \notin UserKinds /\ dict[model[k].name] # "absent")
+        => res[k] = DesignLayerX([dict EXCEPT ![QNameX(model[k].kind)] = "absent"], model[k])
+PropCounterpartX(model, res) ==
+  \A k \in 1..Len(model) : IF model[k].kind \in UserKinds THEN res[k].cls = model[k].kind
+                            ELSE res[k].cls \in {model[k].kind, QNameX(model[k].kind)}
 \* a quantized counterpart carries exactly the quantizer roles its class has
 PropRolesX(model, res) ==
   \A k \in 1..Len(model) :
